@@ -75,6 +75,18 @@ fn main() {
             i32::from(!report.violations.is_empty())
         }
         Some("c20-inner") => props::c20::inner(&args[2..]),
+        Some("batchfail") => {
+            let mut report = util::Report::new("debug", "quick", "model_checking");
+            props::batchfail::run(&["C05", "C08", "C09", "C02", "C03"], args.get(2).is_some_and(|x| x == "thorough"), &mut report);
+            println!("{}", serde_json::to_string(&report.coverage["failed_batch_family"]).unwrap_or_default());
+            for v in report.violations.iter().take(6) {
+                println!("VIOLATION {}", v.detail.chars().take(400).collect::<String>());
+            }
+            for m in &report.machinery {
+                println!("MACHINERY {m}");
+            }
+            if report.violations.is_empty() { 0 } else { 1 }
+        }
         Some("c19-case") => props::c19::debug_case(args[2].parse().unwrap(), args[3].parse().unwrap(), &args[4]),
         Some("c17-worker") => props::c17::worker(&args[2..]),
         Some("c15-one") => props::c15::debug_one(args[2].parse().unwrap_or(2), args.get(3).is_some_and(|x| x == "grown")),
